@@ -19,7 +19,7 @@ CONSTANTS NScen, MaxChr, Haps, Prefix, FirstHap
 R(S) == RandomElement(S)
 MainLens == {30, 40, 40, 50, 60, 70}
 UnlLens == {5, 8, 8, 12}
-HtLens == {6, 9, 9, 14}
+HtLens == {6, 9, 9, 14, 45}
 NameTags == {"X", "W", "B1", "Z"}
 Perm5(x) == R({<<1, 2, 3, 4, 5>>, <<5, 4, 3, 2, 1>>, <<2, 1, 4, 3, 5>>, <<3, 5, 1, 2, 4>>, <<4, 1, 5, 3, 2>>, <<2, 3, 4, 5, 1>>, <<5, 1, 2, 3, 4>>})
 \* one chromosome of one haplotype (dummy parameter: see PretextView.tla)
